@@ -177,3 +177,28 @@ func replayKindsProgramAlts(n *Native, job *Job, v *Violation) (ReplayResult, bo
 	}
 	return rr, true
 }
+
+// replayRename re-judges a renaming counterexample natively.
+func replayRename(n *Native, job *Job, v *Violation) (ReplayResult, bool) {
+	srcA, ok := v.Witness["srcA"]
+	srcB, ok2 := v.Witness["srcB"]
+	if v.Kind != "assert" || !ok || !ok2 {
+		return ReplayResult{}, false
+	}
+	ca, okA := concretizeSym(srcA, v.Witness)
+	cb, okB := concretizeSym(srcB, v.Witness)
+	if !okA || !okB {
+		return ReplayResult{Observed: "cannot make the skeleton concrete"}, true
+	}
+	cfg := ""
+	if job.Config != "" {
+		cfg = configRoot(job.Config) + "/.ti-config"
+	}
+	outA, _, _ := n.RunTi(map[string]string{"a.rb": ca}, []string{"./a.rb"}, cfg)
+	outB, _, _ := n.RunTi(map[string]string{"a.rb": cb}, []string{"./a.rb"}, cfg)
+	want := strings.ReplaceAll(outA, v.Witness["rename-from"], v.Witness["rename-to"])
+	v.Witness["native-program-A"] = ca
+	v.Witness["native-program-B"] = cb
+	return ReplayResult{Cmd: "ti ./a.rb on both programs", Reproduced: outB != want,
+		Observed: fmt.Sprintf("original reports %q; renamed reports %q, expected %q", outA, outB, want)}, true
+}
